@@ -278,7 +278,16 @@ func Mutate(r *Rand, doc *GDoc) *Mutation {
 			if e == "" {
 				e = "\n"
 			}
-			ls[last] = body + e + doc.Records[ri].Indent + "7:00 - ?" + end
+			ind := doc.Records[ri].Indent
+			switch r.Intn(3) {
+			case 0: // the faulty entry has a well-formed continuation line
+				ls[last] = body + e + ind + "7:00 - ?" + e + ind + ind + "more" + end
+				return &Mutation{"second-open-range+continuation", join(), last + 1}
+			case 1: // … or a malformed one (a second fault on the following line; the former D19)
+				ls[last] = body + e + ind + "7:00 - ?" + e + ind + ind + Pick(r, []string{"\u00a0", "\u3000 ", " \u00a0\t", "\u2003"}) + end
+				return &Mutation{"second-open-range+bad-continuation", join(), last + 1}
+			}
+			ls[last] = body + e + ind + "7:00 - ?" + end
 			return &Mutation{"second-open-range", join(), last + 1}
 		case 10: // record summary line starting with a blank character
 			i := pickLine("rsum")
